@@ -12,6 +12,7 @@ From Coq Require Import ZArith List Bool Arith Lia QArith Qcanon.
 From VZ Require Import Model.K5_Vocab Model.K5_Float Model.K6_Reindex Model.K02_Windows Model.K03_Cooc
      Model.K03_Exec Model.K04_EM Model.K02_TwoPaths.
 From VZ Require Import Proofs.K5_Vocab_proofs Proofs.K6_Reindex_proofs Proofs.K02_TwoPaths_proofs.
+From VZ Require Import Model.K03_CoocSpec Proofs.K03_BigSum Proofs.K03_Drivers_proofs Proofs.K02_Qc_proofs.
 From VZ Require Properties.C02_cooc.
 Import ListNotations.
 Close Scope Z_scope.
@@ -61,6 +62,28 @@ Theorem C01_cooc_rows_shape :
     Forall (fun row : list (nat * Qc) => Forall (fun c => c < length (ft_state M) * length (ft_dict M)) (map fst row)) R.
 Proof. exact token_transform_rows_shape. Qed.
 Print Assumptions C01_cooc_rows_shape.
+
+(* each column keeps the meaning recorded at fit: cell (r, c + i*n) of transform M X' is the windowed, kernel-weighted
+   count (the pointwise specification of C03, Model/K03_CoocSpec.v) of token c around token r for block i, computed
+   with the FITTED blocks on the re-indexed X' *)
+Theorem C01_cooc_cells :
+  forall (T : Type) (eqb ltb : T -> T -> bool) (matches : T -> bool)
+         (f32div f64div : Z -> Z -> Z) (f64to32 : Z -> Z) (one64 : Z),
+  (forall a b, eqb a b = true <-> a = b) ->
+  forall (K : carrier), carrier_laws K ->
+  forall (cfg : cooc_cfg K) (masking : option T) (M : fitted T (list (block K)) (list (event K)))
+         (X' : list (list T)) r c i,
+  fitted_dict_wf T masking (ft_dict M) -> c < length (ft_dict M) ->
+  exists evs,
+    token_transform T eqb ltb matches f32div f64div f64to32 one64 K (list (event K)) cfg ev_post masking M X' = Ok evs /\
+    sumby evs r (c + i * length (ft_dict M))
+    = token_spec (ft_state M) (cc_nw cfg) (fst (reindex T eqb masking (ft_dict M) X')) r c i.
+Proof.
+  intros T eqb ltb matches f32div f64div f64to32 one64 E K HK cfg masking M X' r c i W Hc.
+  rewrite (token_transform_unfold T eqb ltb matches f32div f64div f64to32 one64). eexists. split; [reflexivity|].
+  unfold ev_post. apply (token_cooc HK); [|exact Hc]. apply (reindex_in_range T eqb E). exact W.
+Qed.
+Print Assumptions C01_cooc_cells.
 
 (* a model fitted on a learned vocabulary is well formed; with a mask the dictionary is the vocabulary + 1 entry *)
 Theorem C01_cooc_fitted_wf :
@@ -150,3 +173,16 @@ Example C01_ex_mask :
   | Err _ => False
   end.
 Proof. vm_compute. repeat split; try reflexivity. discriminate. Qed.
+
+(* C01_cooc_cells on the same model: the rationals satisfy the carrier laws, and the cell (row 1's token "1", column of
+   token "2", 'before' block) of transform M X' is 1/2 on both sides *)
+Example C01_ex_cells :
+  carrier_laws QcK /\
+  match ex_fit ev_post ex_cfg_prune None None ex_X with
+  | Ok M => match ex_transform ev_post None M ex_X' with
+            | Ok evs => show (@sumby QcK evs 0 (1 + 0 * 2)) = (1%Z, 2%Z) /\
+                        show (token_spec (ft_state M) true (fst (reindex Z Z.eqb None (ft_dict M) ex_X')) 0 1 0) = (1%Z, 2%Z)
+            | Err _ => False end
+  | Err _ => False
+  end.
+Proof. split; [exact K02_Qc_proofs.QcK_laws|]. vm_compute. split; reflexivity. Qed.
